@@ -244,7 +244,7 @@ def gen_history(rng, cx):
             w, h = 24, 16
         kind = t % 6
         if kind == 0:      # T1: once intersected with / united inside a huge operand
-            H = float(2 ** rng.choice([38, 40, 42]))
+            H = float(2 ** rng.choice([38, 39, 40]))
             huge = p.add("R", -H, -H, H, H)
             a = p.add("B", 2, base, huge) if rng.random() < 0.7 else p.add("B", 2, huge, base)
         elif kind == 1:    # T2: anisotropic stretch / un-stretch rounds, each materialised by a Boolean
@@ -265,7 +265,7 @@ def gen_history(rng, cx):
                 back = p.add("SC", u, inv[0], inv[1])
                 a = p.add("B", 2, back, clip)
         elif kind == 2:    # T3: combined far from the origin, then moved back
-            far = float(2 ** rng.choice([38, 40, 41]))
+            far = float(2 ** rng.choice([38, 39, 40]))
             fx, fy = (far, 0.0) if rng.random() < 0.5 else (0.0, far)
             moved = p.add("TR", base, fx, fy)
             other = p.add("R", fx + bx + 8.0, fy + by, fx + bx + w + 8.0, fy + by + h)
@@ -605,6 +605,18 @@ def expr_tokens(e, s):
     return [e[0]] + expr_tokens(e[1], s) + expr_tokens(e[2], s)
 
 
+def is_lattice(conts):
+    for c in conts:
+        n = len(c)
+        for i, (x, y) in enumerate(c):
+            if x != math.floor(x) or y != math.floor(y) or abs(x) > 2.0 ** 52 or abs(y) > 2.0 ** 52:
+                return False
+            x2, y2 = c[(i + 1) % n]
+            if x != x2 and y != y2:
+                return False
+    return True
+
+
 def make_job(jid, prog, k, regs, warp, rng, nsamp):
     """returns (job line, meta) for register k of prog"""
     result = regs[k]["polys"]
@@ -615,7 +627,10 @@ def make_job(jid, prog, k, regs, warp, rng, nsamp):
     if not fl:
         fl = [0.0]
     s = scale_of(fl)
-    lattice = prog.regime == "lattice"
+    # pixel semantics (E = 0, Area = pixel count) is claimed only when every operand of THIS operation is an
+    # integer-lattice rectilinear polygon set; an operand that legitimately left the lattice (e.g. produced by an
+    # operation whose own eps is several units) is judged by the generic rule instead
+    lattice = prog.regime == "lattice" and e is not None and is_lattice(expr_conts(e))
     allc = list(result) + (expr_conts(e) if e is not None else [])
     xs = [to_int(x, s) for c in allc for x, _ in c] or [0]
     ys = [to_int(y, s) for c in allc for _, y in c] or [0]
